@@ -42,6 +42,9 @@ MUTATORS = {"append", "extend", "insert", "pop", "remove", "clear", "sort", "rev
             "fill", "setdefault", "popitem", "shuffle", "__delitem__", "difference_update", "intersection_update", "symmetric_difference_update"}
 
 
+ARITH_UFUNCS = {"numpy.multiply": ast.Mult, "numpy.add": ast.Add, "numpy.subtract": ast.Sub, "numpy.matmul": ast.MatMult, "numpy.divide": ast.Div, "numpy.true_divide": ast.Div}
+
+
 def is_const(t, *vals):
     return isinstance(t, tuple) and len(t) == 2 and t[0] == "const" and (not vals or any(t[1] == v and type(t[1]) == type(v) for v in vals))
 
@@ -435,6 +438,10 @@ class Sym(Interp):
             return self.h_call_method(args[0], nm, n, list(args[1:]), dict(kwargs), env, ctx)
         if d == "numpy.transpose" and len(args) == 1 and not kwargs and not (isinstance(args[0], tuple) and args[0] and args[0][0] in ("*", "list", "tuple", "comp", "const")):
             return ("attr", T(args[0]), "T")
+        if d in ARITH_UFUNCS and len(args) == 2 and not kwargs and not any(isinstance(a, tuple) and a and a[0] == "*" for a in args):
+            return self.h_binop(ARITH_UFUNCS[d](), args[0], args[1], n, ctx)       # np.multiply(a, b) is a * b
+        if d == "numpy.identity" and len(args) == 1 and not (set(kwargs) - {"dtype"}):
+            d = "numpy.eye"                                                         # np.identity(n) is np.eye(n)
         if d in ("any", "all") and len(args) == 1 and not kwargs and isinstance(T(args[0]), tuple) and T(args[0])[0] in ("list", "tuple") and T(args[0])[1]:
             t = ("bool", "or" if d == "any" else "and", tuple(T(args[0])[1]))
             self.fact("call", ctx, n, env, target=d, args=[T(args[0])], kwargs={}, callkind="ext", result=t, rawargs=list(args))
